@@ -131,8 +131,17 @@ func (v *list_[V]) GetValues(first int, last int) Sequential[V] {
 
 func (v *list_[V]) InsertValue(slot uint, value V) {
 
+	// Validate the slot.
+	var current = uint(v.GetSize())
+	if slot > current {
+		panic(fmt.Sprintf(
+			"The specified slot is outside the allowed range [0..%v]: %v",
+			current,
+			slot))
+	}
+
 	// Create a new larger array.
-	var size = uint(v.GetSize() + 1)
+	var size = current + 1
 	var array = Array[V](v.GetClass().Notation()).Make(size)
 
 	// Copy the values into the new array.
@@ -155,26 +164,41 @@ func (v *list_[V]) InsertValue(slot uint, value V) {
 
 func (v *list_[V]) InsertValues(slot uint, values Sequential[V]) {
 
+	// Validate the slot.
+	var current = uint(v.GetSize())
+	if slot > current {
+		panic(fmt.Sprintf(
+			"The specified slot is outside the allowed range [0..%v]: %v",
+			current,
+			slot))
+	}
+
 	// Create a new larger array.
-	var size = uint(v.GetSize() + values.GetSize())
+	var size = current + uint(values.GetSize())
 	var array = Array[V](v.GetClass().Notation()).Make(size)
 
-	// Copy the values into the new array.
-	var iterator = v.GetIterator()
+	// Copy the existing values that precede the slot into the new array.
 	var index int
-	for index < int(size) {
-		if index == int(slot) {
-			var iterator2 = values.GetIterator()
-			for iterator2.HasNext() {
-				index++
-				var value = iterator2.GetNext()
-				array.SetValue(index, value)
-			}
-		} else {
-			var existing = iterator.GetNext()
-			index++
-			array.SetValue(index, existing)
-		}
+	var iterator = v.GetIterator()
+	for index < int(slot) {
+		var existing = iterator.GetNext()
+		index++
+		array.SetValue(index, existing)
+	}
+
+	// Copy the new values into the new array.
+	var iterator2 = values.GetIterator()
+	for iterator2.HasNext() {
+		var value = iterator2.GetNext()
+		index++
+		array.SetValue(index, value)
+	}
+
+	// Copy the existing values that follow the slot into the new array.
+	for iterator.HasNext() {
+		var existing = iterator.GetNext()
+		index++
+		array.SetValue(index, existing)
 	}
 
 	// Update the internal array.
